@@ -36,6 +36,12 @@ def run(ch: Choices, focus: str = "C11", params: Optional[dict] = None) -> dict:
     opts = {"gcc_zero_cap": not known.get("gcc_zero_cap_excluded", False), "max_space": 600, "max_props": 2}
     if params.get("allow_known"):
         opts["gcc_zero_cap"] = True
+    if ch.chance(1, 4, "loose"):
+        # long message streams: no or few constraints, so that most of the cartesian product is delivered
+        opts["min_props"] = 0
+        opts["max_props"] = 1
+        opts["types"] = ["dummy", "affine_leq", "alldifferent", "max_leq"]
+        opts["flavour_weights"] = [1, 0, 0]
     model = gen.gen_model(ch, opts)
     out["model"] = gen.render_model(model)
     out["model_dict"] = {k: model[k] for k in ("shr", "idx", "off", "props")}
